@@ -677,9 +677,16 @@ func zzC12wWrongTypedResponse() {
 	panicked := vf.Panics(func() {
 		switch reqKind {
 		case 0:
-			var r *message.Pong
-			r, err = c.sendPing()
-			gotRight = r != nil
+			// the ping sender is reached through the keepalive loop: a pong keeps the connection,
+			// anything else makes the keepalive give the connection up
+			c.pingInterval, c.pingTimeout = 10*time.Second, time.Second
+			go c.keepAliveLoop()
+			vf.Settle()
+			if c.ctx.Err() != nil {
+				err = c.ctx.Err()
+			} else {
+				gotRight = true
+			}
 		case 1:
 			var r *message.UpstreamOpenResponse
 			r, err = c.SendUpstreamOpenRequest(ctx, &message.UpstreamOpenRequest{SessionID: "s", QoS: message.QoSReliable})
@@ -882,14 +889,18 @@ func zzC12dHostileSequences() {
 	vf.Deviations(zzWireDeviations)
 	go c.readReliableLoop()
 	ctx := context.Background()
-	var pong *message.Pong
+	// (a close request stands for "a pending request": the senders share the reply router)
+	var pong *message.UpstreamCloseResponse
 	var perr error
 	done := false
-	go func() { pong, perr = c.sendPing(); done = true }()
+	go func() {
+		pong, perr = c.SendUpstreamCloseRequest(ctx, &message.UpstreamCloseRequest{StreamID: uuid.UUID{1}})
+		done = true
+	}()
 	vf.Settle()
 	var pingID message.RequestID
 	for _, m := range tr.Msgs() {
-		if p, ok := m.(*message.Ping); ok {
+		if p, ok := m.(*message.UpstreamCloseRequest); ok {
 			pingID = p.RequestID
 		}
 	}
@@ -900,13 +911,13 @@ func zzC12dHostileSequences() {
 	switch vf.Choose("hostile.sequence", 3) {
 	case 0: // the same response frame several times in a row
 		for i := 0; i < copies; i++ {
-			tr.In <- &message.Pong{RequestID: pingID}
+			tr.In <- &message.UpstreamCloseResponse{RequestID: pingID}
 		}
 	case 1: // a burst of responses nobody waits for, then the real one
 		for i := 0; i < 12; i++ {
-			tr.In <- &message.UpstreamCloseResponse{RequestID: message.RequestID(uint32(pingID) + 2*uint32(i+1))}
+			tr.In <- &message.UpstreamMetadataAck{RequestID: message.RequestID(uint32(pingID) + 2*uint32(i+1))}
 		}
-		tr.In <- &message.Pong{RequestID: pingID}
+		tr.In <- &message.UpstreamCloseResponse{RequestID: pingID}
 	case 2: // a burst of stream traffic for aliases nobody subscribed, then the real one
 		for i := 0; i < 12; i++ {
 			tr.In <- &message.UpstreamChunkAck{StreamIDAlias: uint32(100 + i)}
@@ -914,7 +925,7 @@ func zzC12dHostileSequences() {
 			tr.In <- &message.DownstreamMetadata{StreamIDAlias: uint32(100 + i), SourceNodeID: "x", Metadata: &message.BaseTime{}}
 			tr.In <- &message.DownstreamChunkAckComplete{StreamIDAlias: uint32(100 + i)}
 		}
-		tr.In <- &message.Pong{RequestID: pingID}
+		tr.In <- &message.UpstreamCloseResponse{RequestID: pingID}
 	}
 	vf.Settle()
 	c.mu.Unlock()
